@@ -58,3 +58,152 @@ package api
 //@   ensures msg.Type != DropPartitionMetaMsgType ==> err != nil
 //@   modifies nothing
 //@   panics never
+
+// ---- the downstream api.DataHandler as ghost state (C08, C09, C20, C07) ------------------------------
+// opCalls / opKind / last<Kind>: number of downstream operation calls, the kind of the last one and
+// a pointer to the parameter object it was given (the proof-side twin of a recording fake handler).
+// probeCalls / lastDescribe<Level>: the same for the three readiness probes.
+// Assumed for every implementation: a call changes nothing the writer can see except these ghosts.
+//@ ghost var opCalls int
+//@ ghost var opKind string
+//@ ghost var probeCalls int
+//@ ghost var lastCreateCollection *CreateCollectionParam
+//@ ghost var lastDropCollection *DropCollectionParam
+//@ ghost var lastCreatePartition *CreatePartitionParam
+//@ ghost var lastDropPartition *DropPartitionParam
+//@ ghost var lastInsert *InsertParam
+//@ ghost var lastDelete *DeleteParam
+//@ ghost var lastFlush *FlushParam
+//@ ghost var lastLoadCollection *LoadCollectionParam
+//@ ghost var lastReleaseCollection *ReleaseCollectionParam
+//@ ghost var lastLoadPartitions *LoadPartitionsParam
+//@ ghost var lastReleasePartitions *ReleasePartitionsParam
+//@ ghost var lastCreateIndex *CreateIndexParam
+//@ ghost var lastDropIndex *DropIndexParam
+//@ ghost var lastAlterIndex *AlterIndexParam
+//@ ghost var lastCreateDatabase *CreateDatabaseParam
+//@ ghost var lastDropDatabase *DropDatabaseParam
+//@ ghost var lastAlterDatabase *AlterDatabaseParam
+//@ ghost var lastReplicateMessage *ReplicateMessageParam
+//@ ghost var lastCreateUser *CreateUserParam
+//@ ghost var lastDeleteUser *DeleteUserParam
+//@ ghost var lastUpdateUser *UpdateUserParam
+//@ ghost var lastCreateRole *CreateRoleParam
+//@ ghost var lastDropRole *DropRoleParam
+//@ ghost var lastOperateUserRole *OperateUserRoleParam
+//@ ghost var lastOperatePrivilege *OperatePrivilegeParam
+//@ ghost var lastDescribeCollection *DescribeCollectionParam
+//@ ghost var lastDescribeDatabase *DescribeDatabaseParam
+//@ ghost var lastDescribePartition *DescribePartitionParam
+//@ trusted func (DataHandler).CreateCollection
+//@   params recv ctx param
+//@   ensures opCalls == old(opCalls) + 1 && opKind == "CreateCollection" && lastCreateCollection == param
+//@   modifies opCalls, opKind, lastCreateCollection
+//@ trusted func (DataHandler).DropCollection
+//@   params recv ctx param
+//@   ensures opCalls == old(opCalls) + 1 && opKind == "DropCollection" && lastDropCollection == param
+//@   modifies opCalls, opKind, lastDropCollection
+//@ trusted func (DataHandler).CreatePartition
+//@   params recv ctx param
+//@   ensures opCalls == old(opCalls) + 1 && opKind == "CreatePartition" && lastCreatePartition == param
+//@   modifies opCalls, opKind, lastCreatePartition
+//@ trusted func (DataHandler).DropPartition
+//@   params recv ctx param
+//@   ensures opCalls == old(opCalls) + 1 && opKind == "DropPartition" && lastDropPartition == param
+//@   modifies opCalls, opKind, lastDropPartition
+//@ trusted func (DataHandler).Insert
+//@   params recv ctx param
+//@   ensures opCalls == old(opCalls) + 1 && opKind == "Insert" && lastInsert == param
+//@   modifies opCalls, opKind, lastInsert
+//@ trusted func (DataHandler).Delete
+//@   params recv ctx param
+//@   ensures opCalls == old(opCalls) + 1 && opKind == "Delete" && lastDelete == param
+//@   modifies opCalls, opKind, lastDelete
+//@ trusted func (DataHandler).Flush
+//@   params recv ctx param
+//@   ensures opCalls == old(opCalls) + 1 && opKind == "Flush" && lastFlush == param
+//@   modifies opCalls, opKind, lastFlush
+//@ trusted func (DataHandler).LoadCollection
+//@   params recv ctx param
+//@   ensures opCalls == old(opCalls) + 1 && opKind == "LoadCollection" && lastLoadCollection == param
+//@   modifies opCalls, opKind, lastLoadCollection
+//@ trusted func (DataHandler).ReleaseCollection
+//@   params recv ctx param
+//@   ensures opCalls == old(opCalls) + 1 && opKind == "ReleaseCollection" && lastReleaseCollection == param
+//@   modifies opCalls, opKind, lastReleaseCollection
+//@ trusted func (DataHandler).LoadPartitions
+//@   params recv ctx param
+//@   ensures opCalls == old(opCalls) + 1 && opKind == "LoadPartitions" && lastLoadPartitions == param
+//@   modifies opCalls, opKind, lastLoadPartitions
+//@ trusted func (DataHandler).ReleasePartitions
+//@   params recv ctx param
+//@   ensures opCalls == old(opCalls) + 1 && opKind == "ReleasePartitions" && lastReleasePartitions == param
+//@   modifies opCalls, opKind, lastReleasePartitions
+//@ trusted func (DataHandler).CreateIndex
+//@   params recv ctx param
+//@   ensures opCalls == old(opCalls) + 1 && opKind == "CreateIndex" && lastCreateIndex == param
+//@   modifies opCalls, opKind, lastCreateIndex
+//@ trusted func (DataHandler).DropIndex
+//@   params recv ctx param
+//@   ensures opCalls == old(opCalls) + 1 && opKind == "DropIndex" && lastDropIndex == param
+//@   modifies opCalls, opKind, lastDropIndex
+//@ trusted func (DataHandler).AlterIndex
+//@   params recv ctx param
+//@   ensures opCalls == old(opCalls) + 1 && opKind == "AlterIndex" && lastAlterIndex == param
+//@   modifies opCalls, opKind, lastAlterIndex
+//@ trusted func (DataHandler).CreateDatabase
+//@   params recv ctx param
+//@   ensures opCalls == old(opCalls) + 1 && opKind == "CreateDatabase" && lastCreateDatabase == param
+//@   modifies opCalls, opKind, lastCreateDatabase
+//@ trusted func (DataHandler).DropDatabase
+//@   params recv ctx param
+//@   ensures opCalls == old(opCalls) + 1 && opKind == "DropDatabase" && lastDropDatabase == param
+//@   modifies opCalls, opKind, lastDropDatabase
+//@ trusted func (DataHandler).AlterDatabase
+//@   params recv ctx param
+//@   ensures opCalls == old(opCalls) + 1 && opKind == "AlterDatabase" && lastAlterDatabase == param
+//@   modifies opCalls, opKind, lastAlterDatabase
+//@ trusted func (DataHandler).ReplicateMessage
+//@   params recv ctx param
+//@   ensures opCalls == old(opCalls) + 1 && opKind == "ReplicateMessage" && lastReplicateMessage == param
+//@   modifies opCalls, opKind, lastReplicateMessage
+//@ trusted func (DataHandler).CreateUser
+//@   params recv ctx param
+//@   ensures opCalls == old(opCalls) + 1 && opKind == "CreateUser" && lastCreateUser == param
+//@   modifies opCalls, opKind, lastCreateUser
+//@ trusted func (DataHandler).DeleteUser
+//@   params recv ctx param
+//@   ensures opCalls == old(opCalls) + 1 && opKind == "DeleteUser" && lastDeleteUser == param
+//@   modifies opCalls, opKind, lastDeleteUser
+//@ trusted func (DataHandler).UpdateUser
+//@   params recv ctx param
+//@   ensures opCalls == old(opCalls) + 1 && opKind == "UpdateUser" && lastUpdateUser == param
+//@   modifies opCalls, opKind, lastUpdateUser
+//@ trusted func (DataHandler).CreateRole
+//@   params recv ctx param
+//@   ensures opCalls == old(opCalls) + 1 && opKind == "CreateRole" && lastCreateRole == param
+//@   modifies opCalls, opKind, lastCreateRole
+//@ trusted func (DataHandler).DropRole
+//@   params recv ctx param
+//@   ensures opCalls == old(opCalls) + 1 && opKind == "DropRole" && lastDropRole == param
+//@   modifies opCalls, opKind, lastDropRole
+//@ trusted func (DataHandler).OperateUserRole
+//@   params recv ctx param
+//@   ensures opCalls == old(opCalls) + 1 && opKind == "OperateUserRole" && lastOperateUserRole == param
+//@   modifies opCalls, opKind, lastOperateUserRole
+//@ trusted func (DataHandler).OperatePrivilege
+//@   params recv ctx param
+//@   ensures opCalls == old(opCalls) + 1 && opKind == "OperatePrivilege" && lastOperatePrivilege == param
+//@   modifies opCalls, opKind, lastOperatePrivilege
+//@ trusted func (DataHandler).DescribeCollection
+//@   params recv ctx param
+//@   ensures probeCalls == old(probeCalls) + 1 && lastDescribeCollection == param
+//@   modifies probeCalls, lastDescribeCollection
+//@ trusted func (DataHandler).DescribeDatabase
+//@   params recv ctx param
+//@   ensures probeCalls == old(probeCalls) + 1 && lastDescribeDatabase == param
+//@   modifies probeCalls, lastDescribeDatabase
+//@ trusted func (DataHandler).DescribePartition
+//@   params recv ctx param
+//@   ensures probeCalls == old(probeCalls) + 1 && lastDescribePartition == param
+//@   modifies probeCalls, lastDescribePartition
